@@ -76,9 +76,6 @@ type mOut struct {
 	setS   *big.Int
 	unspec bool // scalar receiver unspecified afterwards
 	eqWant int  // for *.equal: expected result (0/1), -1 if not an equality op
-	either bool // Random: panic or value both acceptable
-	// Random stopped reading although nothing it was served justifies stopping
-	wrongStop bool
 }
 
 // IsElemOp reports whether the op's receiver is an element variable.
